@@ -334,7 +334,7 @@ func c19Cases(tier string) int {
 	if tier == "thorough" {
 		return 1 + 500000
 	}
-	return 1 + 15000
+	return 1 + 60000
 }
 
 func init() {
